@@ -583,7 +583,6 @@ func ruleSTLRounding(p *Prog, l *Ledger, tier string) {
 		}
 		return only
 	}
-	uses := func(v, fr ssa.Value) bool { return stripConv(v) == fr }
 	n := 0
 	for _, pair := range [][2]string{{"parseDurationSTL", "formatDurationSTL"}, {"parseDurationSTLBytes", "formatDurationSTLBytes"}} {
 		rfn, wfn := anchor(p, l, rule, pair[0]), anchor(p, l, rule, pair[1])
@@ -596,8 +595,35 @@ func ruleSTLRounding(p *Prog, l *Ledger, tier string) {
 			l.Undecide(rule, pair[0], key, "", "frame-rate parameter not identified")
 			continue
 		}
-		find := func(fn *ssa.Function, fr ssa.Value, reader bool) (string, *ssa.BinOp) {
-			for _, b := range fn.Blocks {
+		find := func(fn *ssa.Function, fr0 ssa.Value, reader bool) (string, *ssa.BinOp) {
+			// the frame rate as the helpers of fn see it: fn's parameter and the helper parameters bound to it
+			frs := []ssa.Value{fr0}
+			for _, h := range p.Helpers(fn) {
+				for _, prm := range h.Params {
+					if h != fn && p.rootValue(fn, prm) == fr0 {
+						frs = append(frs, prm)
+					}
+				}
+			}
+			uses := func(v, _ ssa.Value) bool {
+				for _, fr := range frs {
+					if stripConv(v) == fr {
+						return true
+					}
+				}
+				return false
+			}
+			mentions := func(v, _ ssa.Value, d int) bool {
+				for _, fr := range frs {
+					if mentions(v, fr, d) {
+						return true
+					}
+				}
+				return false
+			}
+			fr := fr0
+			blocks := p.helperBlocks(fn)
+			for _, b := range blocks {
 				for _, ins := range b.Instrs {
 					q, ok := ins.(*ssa.BinOp)
 					if !ok || q.Op != token.QUO || !isIntegerT(q.Type()) {
@@ -613,7 +639,7 @@ func ruleSTLRounding(p *Prog, l *Ledger, tier string) {
 				}
 			}
 			// float forms: Convert/Floor/Ceil/Round of a float quotient involving the frame rate
-			for _, b := range fn.Blocks {
+			for _, b := range blocks {
 				for _, ins := range b.Instrs {
 					c, ok := ins.(*ssa.Call)
 					if !ok {
